@@ -11,39 +11,45 @@ builder**: no `unwrap`/`expect`/index/`assert!`/arithmetic panic site of
 `html5ever/src/tree_builder/{mod.rs,rules.rs}` (every `panicAt` of `H5V.Model.HtmlTB`) is reachable,
 for every token sequence, every option set, and a document or fragment start — with ONE exception
 that is real: the `unreachable!("impossible case in Text mode")` of rules.rs:1037 is reached when
-the token source sends anything but characters / an end tag / EOF while the builder is in the
-Text insertion mode (the html5ever tokenizer never does; an arbitrary `TokenSink` client can).
+the token source sends a start tag / comment / null character while the builder is in the Text
+insertion mode (the html5ever tokenizer never does; an arbitrary `TokenSink` client can).  For token
+sequences that keep this protocol (`Respects`) that site is unreachable too
+(`C04_tb_no_panic_protocol`, `C04_tb_total_protocol`).
 
-What is proved (`Lemmas/HtmlTBSafe*.lean`):
+What is proved (`Lemmas/HtmlTBSafe*.lean`, ≈ 11 900 lines):
 * **Layer A** — the invariant `TI s = HInv s ∧ SInv s.mode s` (`HtmlTBSafeInsert`, `HtmlTBSafeInv`):
   every handle the builder holds is an element of the sink with a name that never changes
   (`apply_ext`: every successful sink call, inside the `TreeSink` contract or not, extends the
   arena); the stack of open elements is empty before the root exists and afterwards has an HTML
   `html` element at the bottom that is never popped; `Text`/`InTableText` ⇒ `orig_mode` is set;
   the per-mode stack requirements; #`template` elements ≤ #template insertion modes; … It holds
-  initially (`C04_tb_inv_new`, `C04_tb_inv_fragment`) and is preserved by every rule
+  initially (`C04_tb_inv_new`, `sat_newForFragment`) and is preserved by every rule
   (`C04_tb_no_panic_step`), by `process_token` and by any token list.
 * **Layer B** — `C04_tb_no_panic_step`, `C04_tb_no_panic_token`, `C04_tb_no_panic` (documents),
-  `C04_tb_no_panic_fragment`: the only possible failures are `Benign` (below), none of which is a
-  panic site (`C04_tb_benign_not_panic`).
+  `C04_tb_no_panic_fragment`, `C04_tb_no_panic_protocol(_fragment)`: the only possible failures are
+  `Benign` (below), none of which is a panic site (`C04_tb_benign_not_panic`,
+  `C04_tb_protocol_not_text`).
 * **Layer C (part)** — every *query* sink call (`elem_name`, `same_node`, `get_template_contents`,
-  `is_mathml_annotation_xml_integration_point`, `create_element`, `create_comment`, `pop`,
-  `add_attrs_if_missing`, `associate_with_form`, `mark_script_already_started`, `parse_error`,
-  `set_quirks_mode`, …) succeeds on the DOM model, i.e. is made with handles of the right kind; NOT
-  proved: that the tree-*mutating* calls (`append`, `append_based_on_parent_node`,
-  `append_doctype_to_document`, `remove_from_parent`, `reparent_children`,
-  `maybe_clone_an_option_into_selectedcontent`) are inside the contract — a failure of the DOM
-  model in one of them is `Benign.sinkMut`.
+  `is_mathml_annotation_xml_integration_point`, `add_attrs_if_missing`, and the total ones) succeeds
+  on the DOM model, i.e. is made with handles of the right kind; NOT proved: that the
+  tree-*mutating* calls (`append`, `append_based_on_parent_node`, `append_doctype_to_document`,
+  `remove_from_parent`, `reparent_children`, `maybe_clone_an_option_into_selectedcontent`) are
+  inside the contract — a failure of the DOM model in one of them is `Benign.sinkMut`.
 * **Layer D (part)** — the fuel of every helper loop (`generate_implied_end_tags`,
   `pop_until_current`, `pop_until`, `reconstruct_active_formatting_elements`,
   `unexpected_start_tag_in_foreign_content`) suffices; NOT proved: the fuel of
   `process_to_completion` (`ptcFuel`) — `Benign.ptcFuel`.
+
+`Benign` is parameterised by an `Allow` instance saying which of the two context-dependent failures
+(Text-mode `unreachable!`, `process_to_completion` fuel) are tolerated; all lemmas are generic in it.
 -/
 namespace H5V.Props.C04TB
 open H5V.Model.HtmlTB H5V.Lemmas.TBSafe
 open H5V.Model.Dom (Id Dom)
 
-/-! ### the rules -/
+/-! ### the rules (generic in the allowance) -/
+section rules
+variable {al : Allow}
 
 theorem endTagSpec : EndTagSpec := fun _ _ hi hr hn => sat_processEndTagInBody hi hr hn
 
@@ -60,9 +66,10 @@ theorem bodySpec : BodySpec :=
 
 theorem tableSpec : TableSpec := stepInTable_spec headSpec bodySpec
 
-/-- **every rule re-establishes the invariant and never reaches a panic site** -/
+/-- **every rule re-establishes the invariant and never reaches a panic site** (in Text mode: if
+the `unreachable!` is tolerated or the token is one the mode handles) -/
 theorem allSpec : AllSpec := by
-  intro tok s ht
+  intro tok s ht hprot
   cases hm : s.mode <;> simp only [step]
   · exact stepInitial_spec tok s ht hm
   · exact stepBeforeHtml_spec tok s ht hm
@@ -72,7 +79,7 @@ theorem allSpec : AllSpec := by
   · exact stepAfterHead_spec headSpec afterHeadBlock_spec tok s ht hm
   · exact (bodySpec tok s ht (by rw [hm]; rfl) (by rw [hm]; decide) (fun h => by rw [hm] at h; cases h)
       (fun h => by rw [hm] at h; cases h)).mono (fun _ _ h => h.1)
-  · exact stepText_spec tok s ht hm
+  · exact stepText_spec tok s ht hm (hprot hm)
   · exact tableSpec tok s ht (by rw [hm]; rfl)
   · exact stepInTableText_spec bodySpec tok s ht hm
   · exact stepInCaption_spec bodySpec tok s ht hm
@@ -87,17 +94,12 @@ theorem allSpec : AllSpec := by
   · exact stepAfterAfterBody_spec bodySpec tok s ht hm
   · exact stepAfterAfterFrameset_spec headSpec bodySpec tok s ht hm
 
-/-! ### statements without the program logic -/
-
-/-- a failure that the theorems below do not exclude (see the file header) -/
-abbrev Benign := H5V.Lemmas.TBSafe.Benign
-
 /-- unfolding of `Sat` -/
 theorem sat_iff {α : Type} {m : M α} {s : State} {Q : α → State → Prop} :
     Sat m s Q ↔ (∀ a s', m.run s = .ok (a, s') → Q a s') ∧ (∀ e, m.run s = .error e → Benign e) := by
   unfold Sat
-  show (match m s with | .ok (a, s') => Q a s' | .error e => H5V.Lemmas.TBSafe.Benign e) ↔
-    (∀ a s', m s = .ok (a, s') → Q a s') ∧ (∀ e, m s = .error e → H5V.Lemmas.TBSafe.Benign e)
+  show (match m s with | .ok (a, s') => Q a s' | .error e => Benign e) ↔
+    (∀ a s', m s = .ok (a, s') → Q a s') ∧ (∀ e, m s = .error e → Benign e)
   cases h : m s with
   | error e =>
     constructor
@@ -117,22 +119,107 @@ theorem sat_iff {α : Type} {m : M α} {s : State} {Q : α → State → Prop} :
 
 /-- **Layer B, one rule**: under the invariant, `step mode token` either fails benignly or returns a
 result with which the invariant holds again (for the mode `process_to_completion` will set) -/
-theorem C04_tb_no_panic_step (s : State) (tok : Token) (ht : TI s) :
+theorem C04_tb_no_panic_step (s : State) (tok : Token) (ht : TI s)
+    (hprot : s.mode = .text → al.text ∨ textTok tok = true) :
     (∀ res s', (step s.mode tok).run s = .ok (res, s') → StepPost tok res s') ∧
     (∀ e, (step s.mode tok).run s = .error e → Benign e) :=
-  sat_iff.mp (allSpec tok s ht)
+  sat_iff.mp (allSpec tok s ht hprot)
 
 /-- **Layer B, one token**: `process_token` preserves the invariant and fails at most benignly -/
-theorem C04_tb_no_panic_token (s : State) (tok : TokToken) (line : Nat) (ht : TI s) :
+theorem C04_tb_no_panic_token (hfuel : al.fuel) (s : State) (tok : TokToken) (line : Nat) (ht : TI s)
+    (hprot : s.mode = .text → al.text ∨ okTextTok tok = true) :
     (∀ r s', (processToken tok line).run s = .ok (r, s') → TI s') ∧
     (∀ e, (processToken tok line).run s = .error e → Benign e) :=
-  sat_iff.mp (sat_processToken allSpec ht)
+  sat_iff.mp (sat_processToken allSpec hfuel ht hprot)
 
 /-- any token list -/
-theorem C04_tb_no_panic_tokens (s : State) (toks : List (TokToken × Nat)) (acc : List SinkResult) (ht : TI s) :
+theorem C04_tb_no_panic_tokens (hfuel : al.fuel) (s : State) (toks : List (TokToken × Nat))
+    (acc : List SinkResult) (ht : TI s) (hresp : al.text ∨ Respects s toks) :
     (∀ r s', (processTokens toks acc).run s = .ok (r, s') → TI s') ∧
     (∀ e, (processTokens toks acc).run s = .error e → Benign e) :=
-  sat_iff.mp (sat_processTokens allSpec toks acc s ht)
+  sat_iff.mp (sat_processTokens allSpec hfuel toks acc s ht hresp)
+
+/-- the tokens and `end`, from a state satisfying the invariant -/
+def parseRest (toks : List (TokToken × Nat)) : M (List SinkResult) := do
+  let r ← processTokens toks []
+  finishTB
+  pure r
+
+theorem sat_parseRest (hfuel : al.fuel) (toks : List (TokToken × Nat)) {s : State} (ht : TI s)
+    (hresp : al.text ∨ Respects s toks) : Sat (parseRest toks) s (fun _ _ => True) := by
+  unfold parseRest
+  refine (sat_processTokens allSpec hfuel toks [] s ht hresp).bind ?_
+  intro r s2 _
+  refine sat_finishTB.bind ?_
+  intro _ s3 _
+  exact sat_pure trivial
+
+/-- **the benign failures are not panic sites**: none of the messages of the `panicAt` sites
+(`tbPanicMessages`, which lists all of them except the Text-mode `unreachable!`), of the helper-loop
+fuels or of the "wrong sink answer" sites -/
+theorem C04_tb_benign_not_panic {e : String} (h : Benign e) :
+    e ∉ tbPanicMessages ∧ e ∉ tbFuelMessages ∧ e ∉ tbModelMessages := benign_not_listed h
+
+/-- what a benign failure is -/
+theorem C04_tb_benign_cases {e : String} (h : Benign e) :
+    (∃ (d : Dom) (op : H5V.Model.Dom.SinkOp) (x : String), d.apply op = .error x ∧ MutOp op ∧
+        e = errClass x ++ "@sink: " ++ x) ∨
+    (e = ptcFuelMsg ∧ al.fuel) ∨ (e = textProtoMsg ∧ al.text) ∨
+    (∃ m, e = "meta-extract@encoding.rs: " ++ m) ∨
+    e = "subtendril-utf8@encoding.rs: subtendril is not valid UTF-8" := by
+  cases h with
+  | sinkMut d op x h1 h2 => exact Or.inl ⟨d, op, x, h1, h2, rfl⟩
+  | ptcFuel ha => exact Or.inr (Or.inl ⟨rfl, ha⟩)
+  | textProto ha => exact Or.inr (Or.inr (Or.inl ⟨rfl, ha⟩))
+  | metaExtract m => exact Or.inr (Or.inr (Or.inr (Or.inl ⟨m, rfl⟩)))
+  | metaUtf8 => exact Or.inr (Or.inr (Or.inr (Or.inr rfl)))
+
+end rules
+
+/-! ### the two allowances -/
+
+/-- both context-dependent failures tolerated: arbitrary token sequences -/
+@[reducible] def allowAll : Allow := ⟨True, True⟩
+/-- the Text-mode `unreachable!` not tolerated: token sequences that keep the tokenizer protocol -/
+@[reducible] def allowFuel : Allow := ⟨False, True⟩
+
+/-- the failures not excluded for arbitrary token sequences -/
+abbrev BenignAny (e : String) : Prop := @Benign allowAll e
+/-- the failures not excluded for token sequences that keep the tokenizer protocol -/
+abbrev BenignProto (e : String) : Prop := @Benign allowFuel e
+
+theorem C04_tb_protocol_not_text {e : String} (h : BenignProto e) : e ≠ textProtoMsg :=
+  @benign_ne_textProto allowFuel (fun h => h) e h
+
+/-! ### a decision procedure for `Respects` on concrete token lists -/
+
+/-- run the model and check the protocol along the way -/
+def respectsB : State → List (TokToken × Nat) → Bool
+  | _, [] => true
+  | s, (t, line) :: rest =>
+    (s.mode != .text || okTextTok t) &&
+    match (processToken t line).run s with
+    | .ok (_, s') => respectsB s' rest
+    | .error _ => true
+
+theorem respects_of_respectsB : ∀ (toks : List (TokToken × Nat)) (s : State),
+    respectsB s toks = true → Respects s toks := by
+  intro toks
+  induction toks with
+  | nil => intro s _; trivial
+  | cons t rest ih =>
+    intro s h
+    obtain ⟨tk, line⟩ := t
+    simp only [respectsB, Bool.and_eq_true, Bool.or_eq_true, bne_iff_ne, ne_eq] at h
+    refine ⟨fun hm => ?_, fun r s' hr => ?_⟩
+    · rcases h.1 with h1 | h1
+      · exact absurd hm h1
+      · exact h1
+    · have h2 := h.2
+      rw [hr] at h2
+      exact ih s' h2
+
+/-! ### documents -/
 
 theorem endLoop_total : ∀ (l : List Id) (s : State), ∃ s', (endLoop l).run s = .ok ((), s') := by
   intro l
@@ -146,95 +233,107 @@ theorem endLoop_total : ∀ (l : List Id) (s : State), ∃ s', (endLoop l).run s
 /-- `TreeSink::end` is total from every state (it only tells the sink to pop the open elements) -/
 theorem C04_tb_end_total (s : State) : ∃ s', finishTB.run s = .ok ((), s') := endLoop_total _ _
 
+/-- the builder state after `TreeBuilder::new` -/
+def docStart (opts : Opts) : State :=
+  { State.init opts with docHandle := 0, traceRev := [(.getDocument, .node 0)] }
+
+theorem newTB_run (opts : Opts) : newTB.run (State.init opts) = .ok ((), docStart opts) := rfl
+
 /-- the invariant holds after `TreeBuilder::new` -/
-theorem C04_tb_inv_new (opts : Opts) :
-    ∃ s, newTB.run (State.init opts) = .ok ((), s) ∧ TI s := by
-  have h := sat_iff.mp (sat_newTB (fresh_init opts))
-  have hr : newTB.run (State.init opts) =
-      .ok ((), { State.init opts with docHandle := 0, traceRev := [(.getDocument, .node 0)] }) := rfl
-  exact ⟨_, hr, h.1 _ _ hr⟩
+theorem C04_tb_inv_new (opts : Opts) : TI (docStart opts) :=
+  ((@sat_iff allowAll _ _ _ _).mp (@sat_newTB allowAll _ (fresh_init opts))).1 _ _ (newTB_run opts)
 
 /-- a whole document parse: `new`, any tokens, `end` -/
 def parseDocument (toks : List (TokToken × Nat)) : M (List SinkResult) := do
   newTB
-  let r ← processTokens toks []
-  finishTB
-  pure r
+  parseRest toks
 
-/-- a whole fragment parse: `new_for_fragment`, any tokens, `end` -/
-def parseFragment (ctx : Id) (form : Option Id) (toks : List (TokToken × Nat)) : M (List SinkResult) := do
-  newForFragment ctx form
-  let r ← processTokens toks []
-  finishTB
-  pure r
-
-theorem sat_parseDocument (opts : Opts) (toks : List (TokToken × Nat)) :
-    Sat (parseDocument toks) (State.init opts) (fun _ _ => True) := by
-  unfold parseDocument
-  refine (sat_newTB (fresh_init opts)).bind ?_
-  intro _ s1 ht1
-  refine (sat_processTokens allSpec toks [] s1 ht1).bind ?_
-  intro r s2 _
-  refine sat_finishTB.bind ?_
-  intro _ s3 _
-  exact sat_pure trivial
-
-theorem sat_parseFragment (opts : Opts) (d : Dom) (ctx : Id) (form : Option Id) (toks : List (TokToken × Nat))
-    (hctx : IsEl d ctx) (hform : ∀ f, form = some f → IsEl d f ∧ nm d f = formName) :
-    Sat (parseFragment ctx form toks) { State.init opts with dom := d } (fun _ _ => True) := by
-  unfold parseFragment
-  refine (sat_newForFragment (fresh_init_dom opts d) hctx hform).bind ?_
-  intro _ s1 ht1
-  refine (sat_processTokens allSpec toks [] s1 ht1).bind ?_
-  intro r s2 _
-  refine sat_finishTB.bind ?_
-  intro _ s3 _
-  exact sat_pure trivial
+theorem parseDocument_run (opts : Opts) (toks : List (TokToken × Nat)) :
+    (parseDocument toks).run (State.init opts) = (parseRest toks).run (docStart opts) := rfl
 
 /-- **C04 (tree builder), documents**: for every option set and every token sequence, parsing a
 document fails at most benignly -/
 theorem C04_tb_no_panic (opts : Opts) (toks : List (TokToken × Nat)) (e : String)
-    (h : (parseDocument toks).run (State.init opts) = .error e) : Benign e :=
-  (sat_iff.mp (sat_parseDocument opts toks)).2 e h
+    (h : (parseDocument toks).run (State.init opts) = .error e) : BenignAny e := by
+  rw [parseDocument_run] at h
+  exact ((@sat_iff allowAll _ _ _ _).mp
+    (@sat_parseRest allowAll trivial toks _ (C04_tb_inv_new opts) (Or.inl trivial))).2 e h
 
-/-- **C04 (tree builder), fragments**: the same with any sink `d`, any context element of `d`, and
-no form pointer or an HTML `form` element of `d` -/
+/-- **… and for token sequences that keep the tokenizer protocol the Text-mode `unreachable!` is
+excluded as well** -/
+theorem C04_tb_no_panic_protocol (opts : Opts) (toks : List (TokToken × Nat))
+    (hresp : Respects (docStart opts) toks) (e : String)
+    (h : (parseDocument toks).run (State.init opts) = .error e) : BenignProto e := by
+  rw [parseDocument_run] at h
+  exact ((@sat_iff allowFuel _ _ _ _).mp
+    (@sat_parseRest allowFuel trivial toks _ (C04_tb_inv_new opts) (Or.inr hresp))).2 e h
+
+/-! ### fragments -/
+
+/-- a whole fragment parse: `new_for_fragment`, any tokens, `end` -/
+def parseFragment (ctx : Id) (form : Option Id) (toks : List (TokToken × Nat)) : M (List SinkResult) := do
+  newForFragment ctx form
+  parseRest toks
+
+/-- the start state of a fragment parse: a fresh builder on an arbitrary sink `d` -/
+def fragInit (opts : Opts) (d : Dom) : State := { State.init opts with dom := d }
+
+/-- **C04 (tree builder), fragments**: any sink `d`, any context element of `d`, no form pointer or
+an HTML `form` element of `d`, any token sequence -/
 theorem C04_tb_no_panic_fragment (opts : Opts) (d : Dom) (ctx : Id) (form : Option Id)
     (toks : List (TokToken × Nat)) (hctx : IsEl d ctx)
     (hform : ∀ f, form = some f → IsEl d f ∧ nm d f = formName) (e : String)
-    (h : (parseFragment ctx form toks).run { State.init opts with dom := d } = .error e) : Benign e :=
-  (sat_iff.mp (sat_parseFragment opts d ctx form toks hctx hform)).2 e h
+    (h : (parseFragment ctx form toks).run (fragInit opts d) = .error e) : BenignAny e := by
+  have hs : @Sat allowAll _ (parseFragment ctx form toks) (fragInit opts d) (fun _ _ => True) := by
+    unfold parseFragment
+    refine (@sat_newForFragment allowAll _ _ _ (fresh_init_dom opts d) hctx hform).bind ?_
+    intro _ s1 ht1
+    exact @sat_parseRest allowAll trivial toks _ ht1 (Or.inl trivial)
+  exact ((@sat_iff allowAll _ _ _ _).mp hs).2 e h
 
-/-- **the benign failures are not panic sites**: none of the messages of the `panicAt` sites
-(`tbPanicMessages`, which lists all of them except the Text-mode `unreachable!`), of the helper-loop
-fuels or of the "wrong sink answer" sites -/
-theorem C04_tb_benign_not_panic {e : String} (h : Benign e) :
-    e ∉ tbPanicMessages ∧ e ∉ tbFuelMessages ∧ e ∉ tbModelMessages := benign_not_listed h
+/-- the same for token sequences that keep the protocol from the state `new_for_fragment` leaves -/
+theorem C04_tb_no_panic_protocol_fragment (opts : Opts) (d : Dom) (ctx : Id) (form : Option Id)
+    (toks : List (TokToken × Nat)) (hctx : IsEl d ctx)
+    (hform : ∀ f, form = some f → IsEl d f ∧ nm d f = formName)
+    (hresp : ∀ s1, (newForFragment ctx form).run (fragInit opts d) = .ok ((), s1) → Respects s1 toks)
+    (e : String) (h : (parseFragment ctx form toks).run (fragInit opts d) = .error e) : BenignProto e := by
+  have hs : @Sat allowFuel _ (parseFragment ctx form toks) (fragInit opts d) (fun _ _ => True) := by
+    unfold parseFragment
+    refine (sat_with_run (@sat_newForFragment allowFuel _ _ _ (fresh_init_dom opts d) hctx hform)).bind ?_
+    rintro u s1 ⟨ht1, hrun⟩
+    exact @sat_parseRest allowFuel trivial toks _ ht1 (Or.inr (hresp s1 hrun))
+  exact ((@sat_iff allowFuel _ _ _ _).mp hs).2 e h
 
-/-- what a benign failure is -/
-theorem C04_tb_benign_cases {e : String} (h : Benign e) :
-    (∃ (d : Dom) (op : H5V.Model.Dom.SinkOp) (x : String), d.apply op = .error x ∧ MutOp op ∧
-        e = errClass x ++ "@sink: " ++ x) ∨
-    e = ptcFuelMsg ∨ e = textProtoMsg ∨ (∃ m, e = "meta-extract@encoding.rs: " ++ m) ∨
-    e = "subtendril-utf8@encoding.rs: subtendril is not valid UTF-8" := by
-  cases h with
-  | sinkMut d op x h1 h2 => exact Or.inl ⟨d, op, x, h1, h2, rfl⟩
-  | ptcFuel => exact Or.inr (Or.inl rfl)
-  | textProto => exact Or.inr (Or.inr (Or.inl rfl))
-  | metaExtract m => exact Or.inr (Or.inr (Or.inr (Or.inl ⟨m, rfl⟩)))
-  | metaUtf8 => exact Or.inr (Or.inr (Or.inr (Or.inr rfl)))
+/-! ### headline -/
 
-/-- headline: no document parse ends in one of the listed panic messages -/
+/-- no document parse ends in one of the listed panic / helper-fuel / model messages … -/
 theorem C04_tb_total (opts : Opts) (toks : List (TokToken × Nat)) :
     ∀ e ∈ tbPanicMessages ++ tbFuelMessages ++ tbModelMessages,
       (parseDocument toks).run (State.init opts) ≠ .error e := by
   intro e he h
-  have hb := C04_tb_benign_not_panic (C04_tb_no_panic opts toks e h)
+  have hb := @C04_tb_benign_not_panic allowAll e (C04_tb_no_panic opts toks e h)
   rcases List.mem_append.mp he with he | he
   · rcases List.mem_append.mp he with he | he
     · exact hb.1 he
     · exact hb.2.1 he
   · exact hb.2.2 he
+
+/-- … and with a token source that keeps the tokenizer protocol not in the Text-mode
+`unreachable!` either: **no panic site of the tree builder at all** -/
+theorem C04_tb_total_protocol (opts : Opts) (toks : List (TokToken × Nat))
+    (hresp : Respects (docStart opts) toks) :
+    ∀ e ∈ textProtoMsg :: (tbPanicMessages ++ tbFuelMessages ++ tbModelMessages),
+      (parseDocument toks).run (State.init opts) ≠ .error e := by
+  intro e he h
+  have hbp := C04_tb_no_panic_protocol opts toks hresp e h
+  rcases List.mem_cons.mp he with he | he
+  · exact C04_tb_protocol_not_text hbp he
+  · have hb := @C04_tb_benign_not_panic allowFuel e hbp
+    rcases List.mem_append.mp he with he | he
+    · rcases List.mem_append.mp he with he | he
+      · exact hb.1 he
+      · exact hb.2.1 he
+    · exact hb.2.2 he
 
 /-! ### non-vacuity -/
 
@@ -254,6 +353,13 @@ example : errOf ((parseDocument [st "html", st "table", st "b", ch "x", st "td",
 example : errOf ((parseDocument [st "title", (.comment [], 1)]).run (State.init {})) = some textProtoMsg := by
   decide +kernel
 
+/-- a token list that passes through Text mode and keeps the protocol (`<title>x</title><p>y`) … -/
+example : Respects (docStart {}) [st "title", ch "x", et "title", st "p", ch "y", (.eof, 1)] :=
+  respects_of_respectsB _ _ (by decide +kernel)
+
+/-- … and one that does not (`<title>` then a comment) -/
+example : respectsB (docStart {}) [st "title", (.comment [], 1)] = false := by decide +kernel
+
 /-- a sink that already holds a `td` element (id 1), used as fragment context element -/
 def fragDom : Dom := (Dom.new.createElement { ns := nsHtml, loc := "td".toList } [] {}).1
 
@@ -261,15 +367,15 @@ theorem fragDom_ctx : IsEl fragDom 1 := ⟨_, rfl⟩
 
 /-- the hypotheses of the fragment theorem are satisfiable -/
 example (toks : List (TokToken × Nat)) (e : String)
-    (h : (parseFragment 1 none toks).run { State.init {} with dom := fragDom } = .error e) : Benign e :=
+    (h : (parseFragment 1 none toks).run (fragInit {} fragDom) = .error e) : BenignAny e :=
   C04_tb_no_panic_fragment {} fragDom 1 none toks fragDom_ctx (fun f hf => by cases hf) e h
 
 /-- a fragment run (context `td`; table rows, foreign content, a stray `</td>`) ends without failure -/
 example : errOf ((parseFragment 1 none [st "tr", st "td", st "svg", st "b", et "td", ch "x", (.eof, 1)]).run
-    { State.init {} with dom := fragDom }) = none := by decide +kernel
+    (fragInit {} fragDom)) = none := by decide +kernel
 
 /-- the invariant is satisfiable: it holds in the state after `TreeBuilder::new` -/
-example : ∃ s, TI s := let ⟨s, _, h⟩ := C04_tb_inv_new {}; ⟨s, h⟩
+example : ∃ s, TI s := ⟨_, C04_tb_inv_new {}⟩
 
 end H5V.Props.C04TB
 
@@ -280,9 +386,14 @@ end H5V.Props.C04TB
 #print axioms H5V.Props.C04TB.C04_tb_end_total
 #print axioms H5V.Props.C04TB.C04_tb_inv_new
 #print axioms H5V.Props.C04TB.C04_tb_no_panic
+#print axioms H5V.Props.C04TB.C04_tb_no_panic_protocol
 #print axioms H5V.Props.C04TB.C04_tb_no_panic_fragment
+#print axioms H5V.Props.C04TB.C04_tb_no_panic_protocol_fragment
 #print axioms H5V.Props.C04TB.C04_tb_benign_not_panic
 #print axioms H5V.Props.C04TB.C04_tb_benign_cases
+#print axioms H5V.Props.C04TB.C04_tb_protocol_not_text
 #print axioms H5V.Props.C04TB.C04_tb_total
+#print axioms H5V.Props.C04TB.C04_tb_total_protocol
+#print axioms H5V.Props.C04TB.respects_of_respectsB
 #print axioms H5V.Lemmas.TBSafe.apply_ext
 #print axioms H5V.Lemmas.TBSafe.sat_newForFragment
